@@ -11,9 +11,11 @@ package splunk
 import (
 	"bufio"
 	"bytes"
+	"compress/gzip"
 	"encoding/json"
 	"fmt"
 	"io"
+	"net"
 	"net/http"
 	"net/http/httptest"
 	"os"
@@ -86,8 +88,8 @@ func (w *c19SplunkWorker) close() { w.srv.Close() }
 
 func (w *c19SplunkWorker) run(c *c19Case) (res c19CaseRes) {
 	res.N = c.N
-	cfgJSON := fmt.Sprintf(`{"endpoint":%q,"token":"c19","copy_fields":[{"from":"svc","to":"fields.svc"}],`+c19BatcherJSON+
-		`,"retry":1,"retention":"1ms","request_timeout":"10s","keep_alive":{"max_idle_conn_duration":"100ms"}}`, w.srv.URL)
+	cfgJSON := fmt.Sprintf(`{"endpoint":%q,"token":"c19","copy_fields":[{"from":"svc","to":"fields.svc"}],"use_gzip":%v,`+c19BatcherJSON+
+		`,"retry":1,"retention":"1ms","request_timeout":"10s","keep_alive":{"max_idle_conn_duration":"100ms"}}`, w.srv.URL, c.Gzip)
 	config, err := pipeline.GetConfig(&pipeline.PluginStaticInfo{Type: outPluginType, Factory: Factory}, []byte(cfgJSON), c19Values)
 	if err != nil {
 		panic(err)
@@ -135,6 +137,8 @@ type c19Case struct {
 	Split   bool      `json:"split"`
 	Batches [][]c19Ev `json:"batches"`
 	Pats    [][][]int `json:"pats"`
+	Gzip    bool      `json:"gzip"` // transport: use_gzip
+	Dead    int       `json:"dead"` // transport: number of dead endpoints configured next to the live one
 	Fail    []bool    `json:"fail"` // per batch: the sink answers 5xx to every attempt (the batch is given up)
 	DQ      bool      `json:"dq"`   // a dead queue is configured
 }
@@ -164,9 +168,10 @@ type c19BatchRes struct {
 }
 
 type c19CaseRes struct {
-	N       int           `json:"n"`
-	Batches []c19BatchRes `json:"batches"`
-	Panic   string        `json:"panic,omitempty"`
+	N        int           `json:"n"`
+	Batches  []c19BatchRes `json:"batches"`
+	Panic    string        `json:"panic,omitempty"`
+	DeadHits int           `json:"dead_hits"` // connections that arrived at a dead endpoint during the case
 }
 
 // ---- event content: adversarial values in the routing field (svc) and in the message -------------------
@@ -345,10 +350,67 @@ type c19HTTPSink struct {
 	okBody   string
 }
 
+// dead endpoints: the TCP connection is accepted (so that the hit can be counted) and reset at once -- a transport error
+// for the client, like a refused connection
+type c19DeadEndpoints struct {
+	lns  []net.Listener
+	hits int64
+}
+
+func c19NewDeadEndpoints(n int) *c19DeadEndpoints {
+	d := &c19DeadEndpoints{}
+	for i := 0; i < n; i++ {
+		ln, err := net.Listen("tcp", "127.0.0.1:0")
+		if err != nil {
+			panic(err)
+		}
+		d.lns = append(d.lns, ln)
+		go func() {
+			for {
+				conn, err := ln.Accept()
+				if err != nil {
+					return
+				}
+				atomic.AddInt64(&d.hits, 1)
+				if tc, ok := conn.(*net.TCPConn); ok {
+					_ = tc.SetLinger(0)
+				}
+				_ = conn.Close()
+			}
+		}()
+	}
+	return d
+}
+
+func (d *c19DeadEndpoints) urls(n int) []string {
+	var out []string
+	for i := 0; i < n && i < len(d.lns); i++ {
+		out = append(out, "http://"+d.lns[i].Addr().String())
+	}
+	return out
+}
+
+func (d *c19DeadEndpoints) close() {
+	for _, ln := range d.lns {
+		_ = ln.Close()
+	}
+}
+
 func (s *c19HTTPSink) ServeHTTP(w http.ResponseWriter, req *http.Request) {
 	body, _ := io.ReadAll(req.Body)
+	var gzErr error
+	if req.Header.Get("Content-Encoding") == "gzip" {
+		// what a sink does: decode the body (all gzip members) before it looks at the documents
+		var zr *gzip.Reader
+		if zr, gzErr = gzip.NewReader(bytes.NewReader(body)); gzErr == nil {
+			body, gzErr = io.ReadAll(zr)
+		}
+	}
 	s.mu.Lock()
 	r := s.parse(body, s.orig, s.route)
+	if gzErr != nil {
+		r.Framing = append(r.Framing, c19Framing{Where: "gzip_body", ID: -1, Text: gzErr.Error()})
+	}
 	r.Bytes = len(body)
 	if r.IDs == nil {
 		r.IDs = []int{}
